@@ -58,6 +58,11 @@ CHECKS = {
    note="Trusted: Coq kernel/vm_compute + primitive floats; Model/Schedule.v, Model/Shapes.v, Model/PathSum.v; Python harness; exp enters only through 'exp of a sum = product of exps'. Partial: quadrature accuracy, SVD truncation error and the truncated-oscillator comparison are explored / not covered, not proved.",
    technique="Coq proof (ring-generic sums over paths, telescoping sums, schedule closed forms) + differential correspondence (exact / bit-exact / 1e-8) + closed-form search",
    design="3/C01"),
+ "C04": dict(
+   text="Theorems (Coq, any commutative ring with conjugation, every dimension and number of dissipators): the Lindbladian built by the code preserves the trace (tr.L = 0, liouvillian_trace) and Hermiticity (liouvillian_herm); the influence exponent vanishes whenever the later index is a population, so tracing out the latest point removes the coupling, and exchanging the branches conjugates it, for triangles, squares and rectangles alike (influence_trace, influence_herm); left/right superoperators act as left/right multiplication (super_operators_act). Tied to /repo exactly: operators.py constructions against the kron form and the index-pair form of the model, Lindbladians of System / TimeDependentSystem on integer inputs. Positivity, unit trace under truncation and the PT-TEBD norm are searched on all five methods (incl. strong coupling, rank-deficient states).",
+   note="Trusted: Coq kernel/vm_compute; Model/SuperOps.v, Model/Shapes.v; Python harness. Partial: positivity and the effect of SVD truncation are explored, not proved; the composition of the ingredient theorems into trace/Hermiticity of the whole network is argued in DESIGN.md, not mechanised.",
+   technique="Coq proof (ring identities with finite sums, index-pair superoperators) + exact integer differential correspondence + physicality search",
+   design="3/C04"),
 }
 
 NOT_YET = {}
